@@ -193,15 +193,16 @@ def body_override(cn: bool, ct: int, cnum: bool, cab: bool, ln: bool, lt: int, l
         pass
     elif not hidden:
         ll = ref.parse_block(lnkb, "/d")
-        if ll.type == "X":
+        if ll.type in ("X", "-"):
             hidden = True
         else:
             a = ref.merge(a, ll)
     else:
         # the file entry is gone: a Path=./ block that finds nothing to override is added as a link of its own
         ll = ref.parse_block(lnkb, "/d")
-        e = {"type": ll.type, "name": ll.name, "selector": ll.selector, "host": ll.host, "port": ll.port, "num": ll.num, "abstract": ll.abstract}
-        entries.append(e)
+        if ll.type not in ("X", "-"):  # a block that only hides, and finds nothing to hide, adds nothing
+            e = {"type": ll.type, "name": ll.name, "selector": ll.selector, "host": ll.host, "port": ll.port, "num": ll.num, "abstract": ll.abstract}
+            entries.append(e)
     if not hidden:
         entries.append(a)
     if addlink:
@@ -271,7 +272,7 @@ def obligations(tier, seed):
                            "(optionally followed by a second block, after a comment line): parsed entries == reference reader" % PATHS[pi],
                       bounds="64 subsets x rotations x Path position x Host/Port '+' (symbolic)", functions=["handlers.UMN.UMNDirHandler.getLinkItem"]))
     for ct in range(4):
-        for lt in range(3):
+        for lt in range(4):
             obs.append(Ob(id="C08.3-override[cap.Type=%s,link.Type=%s]" % (TYPES[ct], TYPES[lt]), body="harness.C08:body_override",
                           sig="cn: bool, ct: int, cnum: bool, cab: bool, ln: bool, lt: int, lnum: bool, lab: bool, lhp: bool, sidecar: bool, addlink: bool, uselink: bool, captail: int, addpath: int",
                           pre=["ct == %d" % ct, "lt == %d" % lt, "0 <= captail <= 2", "0 <= addpath <= 2"] + (["lhp == False", "addlink == uselink", "captail == (1 if cn else 0)", "addpath == (0 if not addlink else (1 if lab else 2) if sidecar else 0)"] if tier == "quick"
